@@ -167,10 +167,21 @@ Definition entry_admits_other (U : list cand) (ps : list opkg) : bool :=
     existsb (fun k => negb (same_cand k q))
             (filter_for (resolve_constraint (n ++ "=" ++ p_version (q_pkg q))) (cands_of U n))) ps.
 
+(* C09-F6: the observed origin holds a member that another member excludes with a
+   conflict entry "!x" (the resolver applies "!x" when the excluding package is
+   expanded; a package chosen BEFORE stays in the list) — inside the envelopes of
+   c09_fixpoint_resolver_partial, see c09_fixpoint_resolver_refuted *)
+Definition member_excluded_by_member (ps : list opkg) : bool :=
+  existsb (fun q => existsb (fun d => match d with
+                                      | String "!" rest => dep_satisfied ps rest
+                                      | _ => false
+                                      end) (q_deps q)) ps.
+
 Definition relock_failure_tag (what : string) (U : list cand) (ps : list opkg) (lockl : list string) : string :=
   if unpinned_tagged ps lockl then "viol:fixpoint/unpinned-entry-for-package-from-tagged-repo"
   else if negb (closed_b ps) then "viol:fixpoint/origin-resolution-not-closed"
   else if entry_admits_other U ps then "viol:fixpoint/entry-admits-other-package"
+  else if member_excluded_by_member ps then "viol:fixpoint/member-excluded-by-conflict-entry-of-member"
   else "viol:" ++ what.
 
 Definition judge_relock (univ : list (string * list cand)) (res : list (string * list opkg)) (locks : bymap)
